@@ -288,8 +288,7 @@ package graphql
 //@   props C02 C14 C11
 //@   functional
 //@   assigns nothing
-//@   nopanic
-//@   requires !(typeis(ttype, "*graphql.NonNull") && as(ttype, "*graphql.NonNull") == nil)
+//@   nosafety
 //@   ensures typeis(ttype, "*graphql.NonNull") && as(ttype, "*graphql.NonNull") != nil ==> result == as(ttype, "*graphql.NonNull").OfType
 //@   ensures !typeis(ttype, "*graphql.NonNull") ==> result == ttype
 
